@@ -56,7 +56,17 @@ def run(ctx):
         # the scaled value may be guarded for zero: `if s == 0.0 { s } else { from_bits(to_bits(s) + k) }` (0 * 2^k = 0)
         if raw[0] == 'cast' and raw[1] == 'float_to_int' and raw[3][0] == 'phi':
             gz = e.phi_gate.get(raw[3])
-            if gz is not None and gz[0][0] == 'op' and gz[0][1] in ('eq', 'ne') and C('f64', 0) in (gz[0][3], gz[0][4]):
+            if gz is not None and gz[0][0] == 'op' and gz[0][1] in ('lt', 'le', 'gt', 'ge'):
+                # `if s.abs() < MIN_POSITIVE { s * (0.5 * nside) } else { from_bits(to_bits(s) + k) }`: zero and
+                # subnormal numbers have no exponent to shift; the product is exact (power of two)
+                sides = [x for x in (gz[1], gz[2]) if x[0] == 'call' and x[1] == FROM_BITS]
+                if len(sides) == 1:
+                    from poly import to_poly
+                    s_terms = [x for x in walk(gz[0]) if x[0] == 'call' and isinstance(x[1], str) and x[1].endswith("::abs")]
+                    other = gz[2] if sides[0] is gz[1] else gz[1]
+                    if len(s_terms) == 1 and any(x == s_terms[0][2][0] for x in walk(sides[0])) and any(x == s_terms[0][2][0] for x in walk(other)):
+                        raw = ('cast', raw[1], raw[2], sides[0])
+            elif gz is not None and gz[0][0] == 'op' and gz[0][1] in ('eq', 'ne') and C('f64', 0) in (gz[0][3], gz[0][4]):
                 s0 = gz[0][3] if gz[0][4] == C('f64', 0) else gz[0][4]
                 zero_side, other_side = (gz[1], gz[2]) if gz[0][1] == 'eq' else (gz[2], gz[1])
                 if zero_side in (s0, C('f64', 0)) and other_side[0] == 'call' and other_side[1] == FROM_BITS and any(x == s0 for x in walk(other_side)):
